@@ -59,4 +59,43 @@ PROPS["C19"] = {
                 "cmapconc (real concurrent histories checked with porcupine + a register checker) validates the atomicity assumption; it is not part of the proof"],
 }
 
+READ_TRUSTED = ["bufio.Reader + io.ReadFull deliver exactly the requested bytes or an error, independent of chunking (each case is replayed under 3 chunkings)",
+                "klauspost/flate inflater = Codec.inflate parameter (the driver runs the Lean RFC 1951 inflater in its place and is compared with the real one on every compressed case)",
+                "encoding/binary big-endian decoding as modelled; Go int is 64-bit"]
+PROPS["C03"] = {
+    "theorems": ["Reader.readLoop_refines_rfc", "Reader.readLoop_refines_rfc_takeover", "Reader.readLoop_refines_rfc_plain", "Reader.violation_status",
+                 "Reader.prefix_monotone", "Reader.failed_stays_failed"],
+    "suites": ["read"],
+    "trusted": READ_TRUSTED + ["Spec latitude (DESIGN.md C03): non-minimal length encodings accepted on data frames; a control frame must use the 7-bit form; a frame above the read limit may be failed with 1009 whatever its type; a violating frame whose payload is cut off by end of input may be reported as I/O closure"],
+}
+PROPS["C04"] = {
+    "theorems": ["Reader.readLoop_total", "Reader.readLoop_no_panic", "Reader.step_alloc_bound", "Reader.step_rejects_before_alloc", "Reader.cont_buffer_bounded"],
+    "suites": ["read"],
+    "trusted": READ_TRUSTED + ["opening-handshake byte parsing is net/http's (http.ReadRequest / http.ReadResponse): outside the model, sampled by the hs-server/hs-client suites only"],
+    "clauses_without_theorem": ["handshake bytes cannot crash or hang the endpoint (net/http parsing; sampled)", "the inflater's own working memory is bounded (klauspost; the limit on its OUTPUT is Codec.decompress)"],
+}
+PROPS["C13"] = {
+    "theorems": ["Reader.delivered_within_limit", "Reader.oversize_frame_1009", "Reader.oversize_fragments_1009", "Reader.inflate_limit", "Reader.within_limit_delivered"],
+    "suites": ["read"],
+    "trusted": READ_TRUSTED + ["the real limited reader stops inflating once the limit is exceeded; the model inflates fully and compares (same verdict; the amount inflated before stopping is not modelled)"],
+}
+PROPS["C06"] = {
+    "modules": ["Gws.Props.C06"],
+    "theorems": ["Close.closeReply_spec", "Close.closeReply_table", "Close.closeReply_bad_reason", "Close.local_close_frame", "Close.local_close_length"],
+    "suites": ["read", "conn"],
+    "trusted": ["sync.Mutex critical sections and atomic CAS are atomic; each frame is handed to the transport in one Write (Facts: lock/CAS structure, transport write sites)",
+                "the scheduling hook only makes an interleaving deterministic that the unhooked code can also take"],
+}
+PROPS["C16"]["modules"] = ["Gws.Props.C16", "Gws.Props.C16Read"]
+PROPS["C16"]["theorems"] += ["Reader.read_gate", "Reader.read_gate_text", "Reader.read_gate_text_compressed", "Reader.binary_never_checked", "Reader.check_off_never_rejects"]
+PROPS["C20"] = {
+    "theorems": ["Deque.wf_zero", "Deque.wf_new", "Deque.len_spec", "Deque.front_back_spec", "Deque.range_spec", "Deque.pushBack_spec", "Deque.pushFront_spec",
+                 "Deque.popFront_spec", "Deque.popBack_spec", "Deque.remove_spec", "Deque.insertAfter_spec", "Deque.insertBefore_spec", "Deque.moveToFront_spec",
+                 "Deque.moveToBack_spec", "Deque.update_spec", "Deque.reset_spec", "Deque.clone_spec", "Deque.ops_refine"],
+    "suites": ["deque"],
+    "trusted": ["Go slice/append semantics as modelled by List operations; Pointer (uint32) does not overflow (< 2^32 slots)",
+                "clone independence in memory (no shared backing array) is checked by the suite only: the model is a value model"],
+    "clauses_without_theorem": ["a clone shares no memory with the original (observed by the suite, which diverges clones and compares slot addresses)"],
+}
+
 EXTRA = {}
